@@ -337,8 +337,13 @@ def d3_checker(ctx, cls, appenders):
         return
     chk, assign = checker
     tgt = norm(assign.targets[0])
+    from ..astutil import written_base
+    write_time = True
     for w in writes:
-        recv = norm(w.node.func.value)
+        base_, wd_ = written_base(w.node)
+        recv = norm(base_) if base_ is not None else ''
+        if wd_ is None or norm(wd_) not in ('self._dtype', 'self.dtype'):
+            write_time = False
         ctx.decide(recv == tgt and must_precede(ap, w.node, [assign]), 'R-DOM', 'D3', ap, w.node, 'checked-before-write',
                    f'the appender writes the value returned by {chk.qualname} (validated and cast before anything is written)',
                    detail='the written value is not the checked one, or the check follows the write')
@@ -406,6 +411,26 @@ def d3_checker(ctx, cls, appenders):
     cv += [r for r in rets if is_conv(r.value)]
     nodes = {cfg.node_for(n) for n in cv}
     ok = bool(cv) and not cfg.can_reach(cfg.entry, cfg.exit, avoid=nodes, skip_labels=('exc',))
+    if not ok and write_time and writes:
+        # the conversion with the array's dtype happens at the write itself (`x.astype(self._dtype, ...).tofile(fd)`): what
+        # the checker lets through unconverted is converted there — at *every* place that writes a checked value
+        ok = True
+        for g_ in cls.all_funcs():
+            if g_ is ap:
+                continue
+            for e_ in ctx.E.primitives(g_):
+                if e_.kind in ('WRITE-PATH', 'WRITE-HANDLE') and isinstance(e_.node, ast.Call) and \
+                        isinstance(e_.node.func, ast.Attribute) and e_.node.func.attr == 'tofile':
+                    b_, d_ = written_base(e_.node)
+                    src_ = derived(g_.node, b_) if b_ is not None else set()
+                    from_checker = any(isinstance(v_, ast.Call) and any(t_ is chk for k_, t_ in ctx.R.resolve_call(v_, g_) if k_ == 'repo')
+                                       for nm_ in src_ for v_, _ in defs_of(g_.node, nm_))
+                    conv_here = d_ is not None and norm(d_) in ('self._dtype', 'self.dtype')
+                    conv_before = any(isinstance(v_, ast.Call) and isinstance(v_.func, ast.Attribute) and v_.func.attr == 'astype'
+                                      and v_.args and norm(v_.args[0]) in ('self._dtype', 'self.dtype')
+                                      for nm_ in src_ for v_, _ in defs_of(g_.node, nm_))
+                    if from_checker and not (conv_here or conv_before):
+                        ok = False
     ctx.decide(ok, 'R-DOM', 'D3', chk, cv[0] if cv else None, 'always-converts',
                f'{chk.qualname}: every normal path converts the input with the array\'s dtype (byte order included)',
                detail='a path returns the input without conversion (e.g. a shortcut on dtype.name, which ignores '
